@@ -20,6 +20,7 @@ MODULES = {
     "iroh_relay__streams": ("iroh-relay", "server::streams::verif_kani"),
     "iroh_relay__client": ("iroh-relay", "server::client::verif_kani"),
     "iroh_relay__handshake": ("iroh-relay", "protos::handshake::verif_kani"),
+    "iroh_relay__server": ("iroh-relay", "server::verif_kani"),
     "iroh_dns__pkarr": ("iroh-dns", "pkarr::verif_kani"),
     "iroh__mapped_addrs": ("iroh", "socket::mapped_addrs::verif_kani"),
     "iroh__ip": ("iroh", "socket::transports::ip::verif_kani"),
@@ -315,5 +316,19 @@ PROPS["C03"] = {
         H(_H, "c03_challenge_auth_binds_key_and_challenge", "challenge auth Ok iff the oracle accepts (claimed key, derive_key(domain, this challenge), client signature)", "all symbolic", timeout=600, stub_env=True, stubs=["verify", "derive_key"]),
         H(_H, "c03_client_auth_frame_decoding", "the ClientAuth frame decodes to exactly the key and signature bytes sent; only valid points accepted", "all 97-byte bodies", timeout=600),
         W(_H, "c03_witness"),
+    ],
+}
+
+_SV = "iroh_relay__server"
+PROPS["C13"] = {
+    "functions": ["iroh_relay::server::is_challenge_char"],
+    "bounds": "every char (all 0x110000 scalar values, symbolic)",
+    "out": "MOST of the property: serve_no_content_handler itself (length test 1..=63, the echo `response <challenge>`, status 204) runs on http::HeaderMap/HeaderValue/response::Builder, whose hashing and "
+           "insertion did not finish under CBMC within 200 s even for a 0-byte challenge; a mutation of the length bounds or of the echoed text is NOT detected",
+    "stubs": [],
+    "assumptions": [],
+    "harnesses": [
+        H(_SV, "c13_challenge_alphabet", "is_challenge_char(c) iff c in [A-Za-z0-9._-]", "every char"),
+        H(_SV, "c13_alphabet_witness", "-", "-", expect="witness"),
     ],
 }
